@@ -62,6 +62,22 @@ pub fn generate(prop: &str, seed: u64, index: u64, thorough: bool) -> Option<Sce
 }
 
 pub fn execute(sc: &Scenario) -> Option<RunReport> {
+    let _ = crate::run::take_fresh_refusal();
+    let mut rep = execute_inner(sc)?;
+    if let Some(e) = crate::run::take_fresh_refusal() {
+        // a reference problem could not be built from the scenario's own (well-formed) inputs:
+        // comparisons were skipped, which must not pass for "held"
+        if common::wellformed(sc) && sc.property != "C08" && sc.property != "C17" {
+            let kind: String = e.chars().take_while(|c| c.is_ascii_alphanumeric() || *c == '_').collect();
+            rep.violate(sc, "BUILD_REJECTED", &format!("fresh/{kind}"), format!("build() of a fresh reference problem from the scenario's well-formed inputs returned {e}"));
+        } else {
+            rep.probe("fresh_reference_refused_malformed_input");
+        }
+    }
+    Some(rep)
+}
+
+fn execute_inner(sc: &Scenario) -> Option<RunReport> {
     Some(match sc.property.as_str() {
         "C02" => c02::execute(sc),
         "C04" => c04::execute(sc),
